@@ -22,6 +22,7 @@ import (
 
 	cdcjson "github.com/rqlite/rqlite/v10/cdc/json"
 	"github.com/rqlite/rqlite/v10/command/proto"
+	sqldb "github.com/rqlite/rqlite/v10/db"
 	"github.com/rqlite/rqlite/v10/internal/rarchive/flate"
 	kit "github.com/rqlite/rqlite/v10/internal/verifkit"
 	"go.etcd.io/bbolt"
@@ -186,9 +187,23 @@ func (tr *c25sTransport) RoundTrip(req *http.Request) (*http.Response, error) {
 	return c25sResp(req, code), nil
 }
 
+// c25sCluster is the package's mockCluster, additionally recording what the
+// leader broadcasts (the mock, like the production cluster, also delivers a
+// broadcast to the broadcasting node's own HWM channel).
+type c25sCluster struct {
+	*mockCluster
+	w *c25sWorld
+}
+
+func (c *c25sCluster) BroadcastHighWatermark(v uint64) error {
+	c.w.selfQ = append(c.w.selfQ, v)
+	return c.mockCluster.BroadcastHighWatermark(v)
+}
+
 type c25sWorld struct {
 	dir     string
 	batchSz int
+	multi   bool // the db layer can emit several groups for one log entry
 	svc     *Service
 	cl      *mockCluster
 	tr      *c25sTransport
@@ -201,7 +216,9 @@ type c25sWorld struct {
 	kOther      uint64
 	leader      bool
 	lastWasFeed bool
-	wbBase      uint64
+	pending     []int    // ordinals of the groups sitting in the batcher
+	selfQ       []uint64 // HWM values this node broadcast while leader
+	fBase       uint64   // hwmFollowerUpdated when the current follower loop started
 
 	hist         []int
 	vios         []c25sVio
@@ -209,8 +226,8 @@ type c25sWorld struct {
 	snapTimeouts int
 }
 
-func c25sNewWorld(dir string, batchSz int) *c25sWorld {
-	w := &c25sWorld{dir: dir, batchSz: batchSz, bySig: map[string]*c25sGroup{}, byEvSig: map[string]*c25sGroup{}, vioSeen: map[string]bool{}}
+func c25sNewWorld(dir string, batchSz int, multi bool) *c25sWorld {
+	w := &c25sWorld{dir: dir, batchSz: batchSz, multi: multi, bySig: map[string]*c25sGroup{}, byEvSig: map[string]*c25sGroup{}, vioSeen: map[string]bool{}}
 	w.tr = &c25sTransport{w: w, up: true}
 	return w
 }
@@ -233,7 +250,7 @@ func (w *c25sWorld) start() error {
 	cfg.TransmitRetryPolicy = LinearRetryPolicy
 	cfg.TransmitMaxRetries = nil // retry forever
 	cl := newMockCluster()
-	svc, err := NewService("n1", w.dir, cl, cfg)
+	svc, err := NewService("n1", w.dir, &c25sCluster{cl, w}, cfg)
 	if err != nil {
 		return err
 	}
@@ -250,7 +267,7 @@ func (w *c25sWorld) start() error {
 	}
 	w.svc, w.cl = svc, cl
 	w.leader = false
-	w.wbBase = 0
+	w.pending, w.selfQ, w.fBase = nil, nil, 0
 	w.tr.lastAttemptHi = 0
 	synctest.Wait()
 	return nil
@@ -335,8 +352,15 @@ func c25sSig(m *cdcjson.CDCMessage) string { return fmt.Sprintf("i%d ", m.Index)
 
 func (w *c25sWorld) hand(g *c25sGroup) {
 	pg, _ := c25sMake(g.Ord, g.Index)
+	before := w.svc.writesToBatcher.Load()
 	w.svc.C() <- pg
 	synctest.Wait()
+	if w.svc.writesToBatcher.Load() > before { // accepted (not at or below the HWM)
+		w.pending = append(w.pending, g.Ord)
+		if len(w.pending) == w.batchSz { // the batcher passes a full batch on at once
+			w.pending = nil
+		}
+	}
 }
 
 func (w *c25sWorld) feed(index uint64) {
@@ -419,7 +443,7 @@ func (w *c25sWorld) enabled() []int {
 		}
 	}
 	add(c25sFeed, true)
-	add(c25sSame, w.lastWasFeed && w.groupsOfLast() < 3)
+	add(c25sSame, w.multi && w.lastWasFeed && w.groupsOfLast() < 3)
 	add(c25sTick, true)
 	add(c25sLong, true)
 	add(c25sGain, !w.leader)
@@ -483,7 +507,7 @@ func (w *c25sWorld) apply(a c25sAct) error {
 		}
 		time.Sleep(d)
 		synctest.Wait()
-		w.wbBase = w.svc.writesToBatcher.Load()
+		w.pending = nil // the batch delay has passed
 	case c25sGain:
 		w.newTenure()
 		w.leader = true
@@ -491,6 +515,7 @@ func (w *c25sWorld) apply(a c25sAct) error {
 		synctest.Wait()
 	case c25sLoss:
 		w.leader = false
+		w.fBase = w.svc.hwmFollowerUpdated.Load()
 		w.cl.SetLeader(-1)
 		synctest.Wait()
 	case c25sDown:
@@ -504,7 +529,7 @@ func (w *c25sWorld) apply(a c25sAct) error {
 			w.snapIdx = w.maxFed
 		}
 		synctest.Wait()
-		w.wbBase = w.svc.writesToBatcher.Load()
+		w.pending = nil // flushed
 	case c25sRestart:
 		if err := w.restart(); err != nil {
 			return err
@@ -559,7 +584,9 @@ func (w *c25sWorld) fifoContent() (string, map[int]bool) {
 // enabledness of actions depend on, plus what is observable of the real service
 // at a quiescent point: roles, HWM, durable FIFO content and highest-ever key,
 // whether the FIFO still has something to offer, the highest batch this
-// incarnation already took out of the FIFO, and how many groups sit in the batcher.
+// incarnation already took out of the FIFO, which groups sit in the batcher, the
+// node's own HWM broadcasts still queued for its next follower loop, and the
+// highest HWM update the running follower loop accepted.
 func (w *c25sWorld) key() string {
 	var fed, dl strings.Builder
 	for _, g := range w.groups {
@@ -572,14 +599,23 @@ func (w *c25sWorld) key() string {
 	}
 	fifo, _ := w.fifoContent()
 	hk, _ := w.svc.fifo.HighestKey()
-	pend := (w.svc.writesToBatcher.Load() - w.wbBase) % uint64(w.batchSz)
 	tmax := uint64(0)
 	if w.leader {
 		tmax = w.tr.tenureMaxIdx
 	}
-	return fmt.Sprintf("L%t U%t fed[%s] snap%d other%d lwf%t dl%s tmax%d hwm%d fifo{%s} hi%d next%t att%d pend%d",
+	// HWM values still queued in the node's own HWM channel (own broadcasts, read by the next follower loop)
+	var selfQ []uint64
+	if n := len(w.svc.hwmObCh); n > 0 && n <= len(w.selfQ) {
+		selfQ = w.selfQ[len(w.selfQ)-n:]
+	}
+	// highest HWM update the running follower loop has accepted (it ignores anything at or below)
+	fp := uint64(0)
+	if !w.leader && w.svc.hwmFollowerUpdated.Load() > w.fBase {
+		fp = w.svc.HighWatermark()
+	}
+	return fmt.Sprintf("L%t U%t fed[%s] snap%d other%d lwf%t dl%s tmax%d hwm%d fifo{%s} hi%d next%t att%d pend%v selfq%v fp%d",
 		w.leader, w.tr.up, fed.String(), w.snapIdx, w.kOther, w.lastWasFeed, dl.String(), tmax,
-		w.svc.HighWatermark(), fifo, hk, w.svc.fifo.HasNext(), w.tr.lastAttemptHi, pend)
+		w.svc.HighWatermark(), fifo, hk, w.svc.fifo.HasNext(), w.tr.lastAttemptHi, w.pending, selfQ, fp)
 }
 
 func (w *c25sWorld) settle() bool {
@@ -685,6 +721,7 @@ type c25sJob struct {
 	ID      int   `json:"id"`
 	H       []int `json:"h"`
 	BatchSz int   `json:"b"`
+	Multi   bool  `json:"multi"`
 	Trace   bool  `json:"trace,omitempty"`
 }
 
@@ -717,7 +754,7 @@ func c25sExec(t *testing.T, base string, job c25sJob) (rep c25sReply) {
 		}
 	}()
 	synctest.Test(t, func(t *testing.T) {
-		w := c25sNewWorld(dir, job.BatchSz)
+		w := c25sNewWorld(dir, job.BatchSz, job.Multi)
 		defer func() {
 			if p := recover(); p != nil {
 				rep.Fatal = fmt.Sprintf("panic in %s: %v\n%s", c25sHistString(w.hist), p, debug.Stack())
@@ -774,6 +811,49 @@ func c25sScratchBase(t *testing.T) string {
 		}
 	}
 	return kit.Scratch(t)
+}
+
+type c25sCols struct{}
+
+func (c25sCols) ColumnNames(string) ([]string, error) { return []string{"id", "v"}, nil }
+
+// c25sMultiGroupEntries asks the real db-layer streamer (the producer of the
+// service's input) whether one log entry can arrive as several groups: two
+// commits under one Reset, as for a two-statement non-transactional request.
+func c25sMultiGroupEntries() (bool, error) {
+	ch := make(chan *proto.CDCIndexedEventGroup, 16)
+	st, err := sqldb.NewCDCStreamer(ch, c25sCols{})
+	if err != nil {
+		return false, err
+	}
+	st.Reset(5)
+	for i := int64(1); i <= 2; i++ {
+		if err := st.PreupdateHook(&proto.CDCEvent{Op: proto.CDCEvent_INSERT, Table: "t", NewRowId: i}); err != nil {
+			return false, err
+		}
+		st.CommitHook()
+	}
+	if f, ok := any(st).(interface{ Flush() }); ok {
+		f.Flush() // an end-of-entry hand-over, should the streamer have one
+	}
+	st.Reset(6)
+	n, rows := 0, 0
+	for {
+		select {
+		case g := <-ch:
+			if g.Index == 5 {
+				n++
+				rows += len(g.Events)
+			}
+			continue
+		default:
+		}
+		break
+	}
+	if rows != 2 {
+		return false, fmt.Errorf("streamer probe: %d groups with %d row changes for an entry with 2 committed row changes", n, rows)
+	}
+	return n > 1, nil
 }
 
 const c25sReplyPrefix = "C25S-REPLY "
@@ -913,12 +993,12 @@ func (p *c25sPool) run(t *testing.T, jobs []c25sJob) []c25sReply {
 	return reps
 }
 
-func c25sFatalVio(r *kit.Run, h []int, fatal string) {
+func c25sFatalVio(r *kit.Run, batchSz int, h []int, fatal string) {
 	key := "C25:service:crash"
 	if strings.Contains(fatal, "deadlock") {
 		key = "C25:service:hang"
 	}
-	r.Violation(key, c25sHistString(h)+": "+strings.SplitN(fatal, "\n", 2)[0]+"\n"+c25sTail(fatal, 2500), c25sHistNames(h))
+	r.Violation(key, c25sHistString(h)+": "+strings.SplitN(fatal, "\n", 2)[0]+"\n"+c25sTail(fatal, 2500), c25sReplay{batchSz, c25sHistNames(h)})
 }
 
 func c25sParse(names []string) ([]int, error) {
@@ -938,52 +1018,28 @@ func c25sParse(names []string) ([]int, error) {
 	return h, nil
 }
 
-func TestVerif_C25_service(t *testing.T) {
-	if os.Getenv("VERIF_C25S_CHILD") != "" {
-		c25sChild(t)
-		return
-	}
-	r := kit.Start(t, "C25", "service")
-	defer r.Finish()
+type c25sReplay struct {
+	BatchSize int      `json:"batch_size"`
+	History   []string `json:"history"`
+}
 
-	depth := r.Pick(5, 7)
-	if v := os.Getenv("VERIF_C25S_DEPTH"); v != "" { // experiments only
-		fmt.Sscan(v, &depth)
-	}
-	batchSz := 2
-	if v := os.Getenv("VERIF_C25S_BATCH"); v != "" { // experiments only
-		fmt.Sscan(v, &batchSz)
-	}
-	r.Rule(fmt.Sprintf("breadth-first search over all histories of length <= %d of {feed (next log index, 1-3 row changes on tables t/u by ordinal), same-entry (one more group of the entry just handed over, <=3 per entry, only directly after a hand-over), tick (150 ms: past the 100 ms batch delay and one 131 ms retry), long-tick (2.5 s: past the 2003 ms HWM interval), leader-gain/-loss, endpoint-down/-up, snapshot-sync, restart (Stop, new Service on the same directory, groups of entries after the last snapshot handed over again), other-leader-delivers-{all,1,ahead} (another leader delivered every entry <= {highest handed over, 1, highest+1} and broadcast that HWM; only while this node is not leader)}; every history+action is replayed on a fresh real cdc.Service (batch size %d, retry forever) in a synctest bubble, then closed with leader+endpoint-up+time until nothing moves and judged; histories whose canonical state key (roles, model, HWM, durable FIFO content, FIFO highest key and has-next, highest batch taken from the FIFO by this incarnation, batcher fill) was seen before are not extended; states = distinct keys, transitions = actions executed on the real service, distinct = observed (action, service reaction, closing outcome) triples", depth, batchSz))
-	r.Assume("the environment of the service is modelled from cdc/DESIGN.md, store.fsmSnapshot and cmd/rqlited/main.go: groups arrive once in log order; a completed snapshot sync precedes log truncation; after a restart the groups of the entries after the last snapshot arrive again; another node leads only while this one does not; an HWM broadcast by another leader covers only entries that leader delivered")
-	r.Assume("state-key merging: two histories with the same key are assumed to have the same futures (timer phases are not in the key; ticks are longer than the timers they are meant to pass); 1 in 4 merged histories is extended anyway and its successors compared with the representative's (traces_validated_against_impl counts those executions, service.merge_spotcheck_mismatches the differences); a mismatch costs coverage, never a false alarm, since every verdict comes from a concrete executed history")
-	r.Assume("bbolt transactions are atomic; a restart is Stop + NewService (a process kill differs only in the FIFO file, covered by C26)")
+type c25sPhase struct {
+	BatchSz, Depth int
+	Budgeted       bool
+}
 
-	if raw := kit.Replay(); raw != nil {
-		var names []string
-		if err := json.Unmarshal(raw, &names); err != nil {
-			t.Fatal(err)
-		}
-		h, err := c25sParse(names)
-		if err != nil {
-			t.Fatal(err)
-		}
-		rep := c25sExec(t, c25sScratchBase(t), c25sJob{H: h, BatchSz: batchSz, Trace: true})
-		r.Eval(1)
-		r.Transition(rep.Steps)
-		for _, l := range rep.Trace {
-			t.Log(l)
-		}
-		if rep.Fatal != "" {
-			c25sFatalVio(r, h, rep.Fatal)
-		}
-		for _, v := range rep.Vios {
-			r.Violation(v.Key, v.What, names)
-		}
-		return
+func c25sVioKeys(vs []c25sVio) string {
+	var ks []string
+	for _, v := range vs {
+		ks = append(ks, v.Key)
 	}
+	sort.Strings(ks)
+	return strings.Join(ks, "+")
+}
 
-	pool := &c25sPool{n: 16}
+// c25sSearch is the breadth-first search of one phase (one batch size). It
+// returns the number of distinct states and the depth completed.
+func c25sSearch(t *testing.T, r *kit.Run, pool *c25sPool, ph c25sPhase, multi bool, nEval *int) (int, int) {
 	type node struct {
 		h       []int
 		enabled []int
@@ -998,32 +1054,25 @@ func TestVerif_C25_service(t *testing.T) {
 		h := sha256.Sum256([]byte(s))
 		return binary.BigEndian.Uint64(h[:8])
 	}
+	replay := func(h []int) c25sReplay { return c25sReplay{ph.BatchSz, c25sHistNames(h)} }
 	seen := map[uint64]bool{}
-	succOf := map[uint64]map[int]succ{} // representative's successors, by (hashed) state key
-	root := pool.run(t, []c25sJob{{H: nil, BatchSz: batchSz}})[0]
+	succOf := map[uint64]map[int]succ{} // successors of every state's representative, by (hashed) state key
+	root := pool.run(t, []c25sJob{{H: nil, BatchSz: ph.BatchSz, Multi: multi}})[0]
 	r.Eval(1)
 	if root.Fatal != "" {
 		t.Fatalf("C25 service harness: empty history failed: %s", root.Fatal)
 	}
 	for _, v := range root.Vios {
-		r.Violation(v.Key, v.What, []string{})
+		r.Violation(v.Key, v.What, replay(nil))
 	}
 	seen[hk(root.Key)] = true
 	frontier := []node{{h: nil, enabled: root.Enabled, key: root.Key}}
-	merged, spotMismatch, notQuiescent, snapTimeouts, nEval := 0, 0, 0, 0, 0
+	merged, spotMismatch, notQuiescent, snapTimeouts := 0, 0, 0, 0
 	completed := 0
-	perDepth := []string{}
-	vioKey := func(vs []c25sVio) string {
-		var ks []string
-		for _, v := range vs {
-			ks = append(ks, v.Key)
-		}
-		sort.Strings(ks)
-		return strings.Join(ks, "+")
-	}
-	for d := 1; d <= depth; d++ {
-		if r.OverBudget() {
-			r.Cap("time budget used up before depth %d; all histories up to depth %d are complete", d, completed)
+	var perDepth []string
+	for d := 1; d <= ph.Depth; d++ {
+		if ph.Budgeted && r.OverBudget() {
+			r.Cap("batch size %d: time budget used up before depth %d; all histories up to depth %d are complete", ph.BatchSz, d, completed)
 			break
 		}
 		var jobs []c25sJob
@@ -1031,7 +1080,7 @@ func TestVerif_C25_service(t *testing.T) {
 		for pi, n := range frontier {
 			for _, a := range n.enabled {
 				h := append(append([]int(nil), n.h...), a)
-				jobs = append(jobs, c25sJob{ID: len(jobs), H: h, BatchSz: batchSz})
+				jobs = append(jobs, c25sJob{ID: len(jobs), H: h, BatchSz: ph.BatchSz, Multi: multi})
 				parent = append(parent, pi)
 			}
 		}
@@ -1048,7 +1097,7 @@ func TestVerif_C25_service(t *testing.T) {
 				h := jobs[i].H
 				a := h[len(h)-1]
 				if rep.Fatal != "" {
-					c25sFatalVio(r, h, rep.Fatal)
+					c25sFatalVio(r, ph.BatchSz, h, rep.Fatal)
 					continue
 				}
 				if rep.Disabled {
@@ -1060,14 +1109,14 @@ func TestVerif_C25_service(t *testing.T) {
 					notQuiescent++
 				}
 				snapTimeouts += rep.SnapTimeouts
-				vk := vioKey(rep.Vios)
+				vk := c25sVioKeys(rep.Vios)
 				if par.spot {
 					r.Validated(1)
 					want, ok := succOf[hk(par.key)][a]
 					if !ok || want.key != hk(rep.Key) || want.vios != vk {
 						spotMismatch++
 						if spotMismatch <= 5 {
-							r.Note("merge spot check: %s reaches {%s} verdict {%s}; the representative of its parent state {%s} reached another state or verdict {%s} (known=%v)", c25sHistString(h), rep.Key, vk, par.key, want.vios, ok)
+							r.Note("merge spot check (batch size %d): %s reaches {%s} verdict {%s}; the representative of its parent state {%s} reached another state or verdict {%s} (known=%v)", ph.BatchSz, c25sHistString(h), rep.Key, vk, par.key, want.vios, ok)
 						}
 					}
 				} else {
@@ -1077,18 +1126,18 @@ func TestVerif_C25_service(t *testing.T) {
 					succOf[hk(par.key)][a] = succ{hk(rep.Key), vk}
 				}
 				for _, v := range rep.Vios {
-					r.Violation(v.Key, v.What, c25sHistNames(h))
+					r.Violation(v.Key, fmt.Sprintf("batch size %d: %s", ph.BatchSz, v.What), replay(h))
 				}
-				r.Distinct(rep.Outcome)
-				r.SampleEvery(nEval, map[string]any{"history": c25sHistNames(h), "state": rep.Key, "outcome": rep.Outcome})
-				nEval++
+				r.Distinct(fmt.Sprintf("b%d %s", ph.BatchSz, rep.Outcome))
+				r.SampleEvery(*nEval, map[string]any{"batch_size": ph.BatchSz, "history": c25sHistNames(h), "state": rep.Key, "outcome": rep.Outcome})
+				*nEval++
 				if !seen[hk(rep.Key)] {
 					seen[hk(rep.Key)] = true
 					newStates++
 					next = append(next, node{h: h, enabled: rep.Enabled, key: rep.Key})
 				} else if !par.spot {
 					merged++
-					if merged%4 == 0 && d < depth {
+					if merged%4 == 0 && d < ph.Depth {
 						spots++
 						next = append(next, node{h: h, enabled: rep.Enabled, key: rep.Key, spot: true})
 					}
@@ -1096,17 +1145,92 @@ func TestVerif_C25_service(t *testing.T) {
 			}
 		}
 		completed = d
-		perDepth = append(perDepth, fmt.Sprintf("depth %d: %d histories run, %d new states, %d spot-check nodes", d, len(jobs), newStates, spots))
+		perDepth = append(perDepth, fmt.Sprintf("depth %d: %d histories run, %d new states, %d merged histories kept for a spot check", d, len(jobs), newStates, spots))
 		frontier = next
 	}
-	r.State(len(seen))
-	r.Set("depth_completed", completed)
-	r.Set("per_depth", perDepth)
+	r.Set(fmt.Sprintf("batch%d_depth_completed", ph.BatchSz), completed)
+	r.Set(fmt.Sprintf("batch%d_per_depth", ph.BatchSz), perDepth)
 	r.Add("merged_histories", int64(merged))
 	r.Add("merge_spotcheck_mismatches", int64(spotMismatch))
 	r.Add("closings_not_quiescent", int64(notQuiescent))
 	r.Add("snapshot_sync_timeouts", int64(snapTimeouts))
-	if completed < depth {
-		r.Note("completed depth %d of %d", completed, depth)
+	return len(seen), completed
+}
+
+func TestVerif_C25_service(t *testing.T) {
+	if os.Getenv("VERIF_C25S_CHILD") != "" {
+		c25sChild(t)
+		return
 	}
+	r := kit.Start(t, "C25", "service")
+	defer r.Finish()
+
+	phases := []c25sPhase{{BatchSz: 2, Depth: 5}, {BatchSz: 1, Depth: 4}, {BatchSz: 3, Depth: 4}}
+	if r.Thorough() {
+		phases = []c25sPhase{{BatchSz: 1, Depth: 5}, {BatchSz: 3, Depth: 5}, {BatchSz: 2, Depth: 7, Budgeted: true}}
+	}
+	if v := os.Getenv("VERIF_C25S_PHASE"); v != "" { // experiments only: "<batch>/<depth>"
+		var b, d int
+		fmt.Sscanf(v, "%d/%d", &b, &d)
+		phases = []c25sPhase{{BatchSz: b, Depth: d}}
+	}
+	var pd []string
+	for _, ph := range phases {
+		pd = append(pd, fmt.Sprintf("length <= %d with batch size %d", ph.Depth, ph.BatchSz))
+	}
+	r.Rule("breadth-first search over all histories of " + strings.Join(pd, ", ") + " over {feed (next log index; 1-3 row changes, INSERT/UPDATE/DELETE on tables t/u, by ordinal), same-entry (one more group of the entry just handed over, <=3 per entry, only directly after a hand-over, only if the real db.CDCStreamer produces such groups), tick (150 ms: past the 100 ms batch delay and one 131 ms retry), long-tick (2.5 s: past the 2003 ms HWM interval), leader-gain/-loss, endpoint-down/-up (down alternates transport error / HTTP 503, up alternates 200 / 202), snapshot-sync, restart (Stop, new Service on the same directory, the groups of the entries after the last snapshot handed over again), other-leader-delivers-{all,1,ahead} (another leader delivered every entry <= {highest handed over, 1, highest+1} and broadcast that as HWM; only while this node is not leader)}; every history+action is replayed on a fresh real cdc.Service (retry forever) in a synctest bubble, then closed with leader-gain + endpoint-up + long-ticks until nothing moves, and judged; histories whose canonical state key (roles, model, delivered set, HWM, durable FIFO content, FIFO highest key and has-next, highest batch this incarnation took from the FIFO, batcher content, own queued HWM broadcasts, follower loop's accepted HWM) was seen before are not extended; states = distinct keys, transitions = actions executed on the real service, distinct = observed (action, service reaction, closing outcome) triples")
+	multi, perr := c25sMultiGroupEntries()
+	if perr != nil {
+		t.Fatalf("C25 service harness: %v", perr)
+	}
+	if v := os.Getenv("VERIF_C25S_MULTI"); v != "" { // experiments only
+		multi = v == "1"
+	}
+	if multi {
+		r.Note("db.CDCStreamer hands over one group per commit, so a log entry with several commits arrives as several groups of one index: same-entry is in the alphabet.")
+	} else {
+		r.Note("db.CDCStreamer hands over one group per log entry: same-entry is not in the alphabet.")
+	}
+	r.Set("same_entry_in_alphabet", multi)
+	r.Assume("the environment of the CDC service is modelled from cdc/DESIGN.md, store.fsmSnapshot and cmd/rqlited/main.go: groups arrive once in log order; a completed snapshot sync precedes log truncation; after a restart the groups of the entries after the last snapshot arrive again; another node leads only while this one does not; an HWM broadcast by another leader covers only entries that leader delivered")
+	r.Assume("state-key merging in the CDC service search: two histories with the same key are assumed to have the same futures (timer phases are not in the key; the ticks are longer than the timers they are meant to pass); 1 in 4 merged histories is extended anyway and its successors compared with the representative's (traces_validated_against_impl counts those executions, service.merge_spotcheck_mismatches the differences); a mismatch costs coverage, never a false alarm: every verdict comes from a concrete executed history")
+	r.Assume("a node restart of the CDC service is Stop + NewService (a process kill differs only in the FIFO file, which C26 covers); retry limit = forever; the filter is applied upstream of the service (part index)")
+
+	if raw := kit.Replay(); raw != nil {
+		var rp c25sReplay
+		if err := json.Unmarshal(raw, &rp); err != nil {
+			t.Fatal(err)
+		}
+		h, err := c25sParse(rp.History)
+		if err != nil {
+			t.Fatal(err)
+		}
+		rep := c25sExec(t, c25sScratchBase(t), c25sJob{H: h, BatchSz: rp.BatchSize, Multi: true, Trace: true})
+		r.Eval(1)
+		r.Transition(rep.Steps)
+		for _, l := range rep.Trace {
+			t.Log(l)
+		}
+		if rep.Fatal != "" {
+			c25sFatalVio(r, rp.BatchSize, h, rep.Fatal)
+		}
+		if rep.Disabled {
+			t.Fatalf("replay: an action of %v is not enabled where it stands", rp.History)
+		}
+		for _, v := range rep.Vios {
+			r.Violation(v.Key, fmt.Sprintf("batch size %d: %s", rp.BatchSize, v.What), rp)
+		}
+		return
+	}
+
+	pool := &c25sPool{n: 16}
+	states, nEval := 0, 0
+	for _, ph := range phases {
+		n, done := c25sSearch(t, r, pool, ph, multi, &nEval)
+		states += n
+		if done < ph.Depth {
+			r.Note("batch size %d: completed depth %d of %d.", ph.BatchSz, done, ph.Depth)
+		}
+	}
+	r.State(states)
 }
